@@ -431,11 +431,9 @@ func checkC12(c *Ctx) {
 	}
 
 	// ------------------------------------------------------------------ W1
+	// session-keyed state (the three tables, dkgRunning) may be written anywhere: pairing is O1's business and
+	// locking is C20's. W1 is about everything else: configuration must not be rewritten per session.
 	allowedWriters := map[string]map[string]bool{
-		"dkgRunning":         {"(*threshold.Scheme).ensureDKGNotRunning": true, "(*threshold.Scheme).KeyGen$1": true},
-		"syncsInProgress":    {"(*threshold.Scheme).setup": true},
-		"rbcInProgress":      {"(*threshold.Scheme).setup": true},
-		"messageClassifiers": {"(*threshold.Scheme).setup": true},
 		"RBF":                {"(*threshold.Scheme).setup": true},
 		"SyncFactory":        {"(*threshold.Scheme).setup": true},
 		"StoredData":         {"(*threshold.Scheme).SetStoredData": true},
@@ -458,8 +456,12 @@ func checkC12(c *Ctx) {
 				}
 			}
 			ok := allowedWriters[n][FuncName(fn)]
-			if n == "dkgRunning" && fn.Parent() != nil && fn.Parent().Name() == "KeyGen" {
+			switch n {
+			case "dkgRunning", "syncsInProgress", "rbcInProgress", "messageClassifiers":
 				ok = true
+				if n != "dkgRunning" && fn != t.setup {
+					ok = false // the tables themselves are only ever replaced by setup
+				}
 			}
 			c.Check(ok, W1, FuncName(fn), "store to Scheme."+n, m.Pos(s.Pos()), "writer in the frozen set", "a Scheme field is written by a function outside the frozen writer set: per-session state stored in the shared object survives the session / races with dispatch")
 		}
